@@ -23,7 +23,13 @@ keeps to them:
      and end tags of the ENCLOSING elements and of other block elements (`<div>\n<?php echo "</div>"; ?>\n*x*\n</div>`,
      `<![CDATA[ a </div> b ]]>`); a PI / CDATA / declaration is consumed as one unit only when it STARTS a line (<= 3 spaces) -- it is
      generated only there (a comment is a unit anywhere); a declaration ends at its first `>`, so it carries exactly one tag;
-   * `<script>` / `<style>` with tag-free content; void `<hr ...>` / `<hr/>`;
+   * `<script>` / `<style>` as the raw block itself, with tag-free content or with text that mentions start / end tags of block elements;
+     NESTED as content of an open raw element at every depth, with text that mentions start and end tags of the ENCLOSING elements
+     (`<div>\n<script>\ndocument.write("<p>*x*</p></div>");\n</script>\n*x*\n</div>`): inside a CDATA content element only its own end tag is
+     markup, also when the element did not open the raw block; void `<hr ...>` / `<hr/>`;
+   * content that is legal HTML but leaves out optional end tags or is not perfectly nested (`<li>one\n<li>two`, `<p>intro`, `<tr><td>a<td>b`,
+     `<dt>t<dd>d`, `<span><em>u</span></em>`, void `<img>` / `<br>` / `<input>`), provided no unclosed name equals an enclosing element's name:
+     the enclosing element still ends at its own end tag (the stack of open tags is unwound down to the matching name);
    * comments `<!-- ... -->` (multi-line, blank lines inside, close spelt exactly `-->`), PIs `<? ... ?>`, `<!DOCTYPE ...>` in any
      letter case, `<![CDATA[ ... ]]>`.
    NOT raw blocks for the code (not generated; not claimed by the property either): unknown / inline tag names at the left
